@@ -282,18 +282,20 @@ func Verif_C05_api_call_orders() {
 	if verifTier() >= 1 {
 		N = 4
 	}
-	verifNote("every sequence of N calls (3 quick / 4 thorough) from {Serve (in a goroutine), Close, AddPeer, DeletePeer, GetPeer, ListPeers} on a fresh server with a dial that stays pending; finally Close: must return, Serve (if started) must return, no panic, no deadlock")
+	verifNote("every sequence of N calls (3 quick / 4 thorough) from {Serve (in a goroutine), Close, AddPeer, DeletePeer, GetPeer, ListPeers, 'the listener of the latest Serve fails'} on a fresh server with a dial that stays pending; finally Close: must return, Serve (if started) must return, no panic, no deadlock")
 	s, _ := NewServer(netip.AddrFrom4([4]byte{10, 0, 0, 1}))
 	verifDial = &dialScript{outcomes: []dialOutcome{dialPendingThenFail}, mk: func(int) *symConn { return newStagedConn("out") }}
 	pl := newMonPlugin()
 	ra := netip.AddrFrom4([4]byte{192, 0, 2, 1})
 	serves := 0
 	done := make(chan error, 4)
+	var lastLis *failingListener
 	for i := 0; i < N; i++ {
-		switch verifChoose("call", 6) {
+		switch verifChoose("call", 7) {
 		case 0:
 			serves++
-			lis := newSymListener()
+			lis := &failingListener{symListener: newSymListener(), fail: make(chan struct{})}
+			lastLis = lis
 			go func() { done <- s.Serve([]net.Listener{lis}) }()
 			verifQuiesce()
 		case 1:
@@ -306,6 +308,13 @@ func Verif_C05_api_call_orders() {
 			_, _ = s.GetPeer(ra)
 		case 5:
 			_ = s.ListPeers()
+		case 6:
+			// not an API call but an environment event the API must survive: the listener of the latest Serve fails
+			if lastLis != nil {
+				close(lastLis.fail)
+				lastLis = nil
+				verifQuiesce()
+			}
 		}
 	}
 	s.Close()
